@@ -78,6 +78,7 @@ static inline _Bool vstr_in_set_(const char *set, char c) {
 /* Ghost index: an arbitrary position fixed by the harness.  A stub that cannot state
  * "for all i" states its guarantee at this one arbitrary index instead. */
 extern size_t verif_ghost_idx, verif_ghost_idx2, verif_ghost_idx3, verif_ghost_idx4;
+extern int verif_ghost_int, verif_ghost_int2;
 /* std::string::find_first_not_of(const char* set, size_t pos): exact (loop bounded by the capacity) */
 static inline size_t vstr_find_first_not_of(const vstr *s, const char *set, size_t pos) {
   for (size_t i_ = pos; i_ < (size_t)s->len; ++i_)
